@@ -457,6 +457,70 @@ func ruleR023(c *Ctx) {
 	for _, gi := range c.generatorFuncs(a, fwd) {
 		info := gi.pkg.TypesInfo
 		gname := declName(gi.pkg, gi.decl)
+		// in any function that generates children (also helpers with another result shape): the purity result of one
+		// child must not be overwritten by that of the next one before it was read (conjoined)
+		{
+			type psite struct {
+				as  *ast.AssignStmt
+				obj types.Object
+			}
+			var ps []psite
+			inspectNoLit(gi.decl.Body, func(n ast.Node) bool {
+				as, ok := n.(*ast.AssignStmt)
+				if !ok || len(as.Rhs) != 1 || len(as.Lhs) != 3 {
+					return true
+				}
+				call, ok := ast.Unparen(as.Rhs[0]).(*ast.CallExpr)
+				if !ok {
+					return true
+				}
+				cal := Callee(info, call)
+				if cal == nil || !(cal == a.genFunc.Origin() || fwd[cal]) {
+					return true
+				}
+				if pid, ok := as.Lhs[1].(*ast.Ident); ok && pid.Name != "_" {
+					if o := info.ObjectOf(pid); o != nil {
+						ps = append(ps, psite{as, o})
+					}
+				}
+				return true
+			})
+			gg := c.CFG(gi.decl)
+			for i, first := range ps {
+				for j, second := range ps {
+					if i == j || first.obj != second.obj || first.as == second.as {
+						continue
+					}
+					if enclosingLoop(c, first.as, gi.decl) != nil {
+						continue // the loop form has its own clause below
+					}
+					reads := func(x ast.Node) bool {
+						if x == ast.Node(second.as) {
+							return false
+						}
+						return containsNodeDeep(x, func(y ast.Node) bool {
+							id, ok := y.(*ast.Ident)
+							if !ok || info.ObjectOf(id) != first.obj {
+								return false
+							}
+							// a use, not the left hand side of an assignment
+							if as, ok := c.Parent(id).(*ast.AssignStmt); ok {
+								for _, l := range as.Lhs {
+									if l == ast.Expr(id) {
+										return false
+									}
+								}
+							}
+							return true
+						})
+					}
+					if found, _ := gg.PathAvoiding(first.as, func(x ast.Node) bool { return x == ast.Node(second.as) }, reads); found {
+						key := fmt.Sprintf("%s#purity-overwritten:%s", gname, first.obj.Name())
+						c.Violation(key, second.as.Pos(), "the purity result of generating %s is stored in %s, and the next child generation (%s) stores its purity in the same variable before the first one was read: only the purity of the last child counts, an impure earlier sub expression makes the whole expression look pure", nodeStr(c.Fset, first.as.Lhs[0]), first.obj.Name(), nodeStr(c.Fset, second.as.Lhs[0]))
+					}
+				}
+			}
+		}
 		// only functions that return (ParserFunc|collection, bool, error)
 		res := gi.decl.Type.Results
 		if res == nil {
@@ -641,6 +705,89 @@ func ruleR023(c *Ctx) {
 					if !ok {
 						return true
 					}
+					// a method looked up when the call is evaluated: g.methodHandler.GetMethod(value, name). Its IsPure flag is
+					// not known at compile time; the returned purity needs a conjunct that asks the same method handler about
+					// the purity of the method name (and is false where the handler cannot tell)
+					if sel.Sel.Name == "GetMethod" && isNamed(info.TypeOf(sel.X), modPath+"/funcGen", "MethodHandler") {
+						nChildren++
+						found := false
+						for _, cj := range cs {
+							id, ok := cj.(*ast.Ident)
+							if !ok {
+								continue
+							}
+							o := info.ObjectOf(id)
+							if o == nil {
+								continue
+							}
+							asksHandler, otherTrue := false, false
+							ast.Inspect(gi.decl.Body, func(y ast.Node) bool {
+								var lhs []ast.Expr
+								var rhs []ast.Expr
+								switch t := y.(type) {
+								case *ast.AssignStmt:
+									if len(t.Lhs) == len(t.Rhs) {
+										lhs, rhs = t.Lhs, t.Rhs
+									}
+								case *ast.ValueSpec:
+									for _, nm := range t.Names {
+										lhs = append(lhs, nm)
+									}
+									rhs = t.Values
+								}
+								for i, l := range lhs {
+									lid, ok := l.(*ast.Ident)
+									if !ok || info.ObjectOf(lid) != o || i >= len(rhs) {
+										continue
+									}
+									r := ast.Unparen(rhs[i])
+									if tv := info.Types[r]; tv.Value != nil {
+										if tv.Value.Kind() == constant.Bool && constant.BoolVal(tv.Value) {
+											otherTrue = true
+										}
+										continue
+									}
+									qc, ok := r.(*ast.CallExpr)
+									if !ok {
+										otherTrue = true
+										continue
+									}
+									qs, ok := ast.Unparen(qc.Fun).(*ast.SelectorExpr)
+									if !ok {
+										otherTrue = true
+										continue
+									}
+									// the receiver: a type assertion on the method handler (directly or through a variable)
+									recv := ast.Unparen(qs.X)
+									if rid, ok := recv.(*ast.Ident); ok {
+										if as2, j := definingAssign(info, gi.decl, info.ObjectOf(rid)); as2 != nil {
+											if len(as2.Rhs) == 1 && j == 0 {
+												recv = ast.Unparen(as2.Rhs[0])
+											} else if len(as2.Rhs) == len(as2.Lhs) {
+												recv = ast.Unparen(as2.Rhs[j])
+											}
+										}
+									}
+									if ta, ok := recv.(*ast.TypeAssertExpr); ok {
+										recv = ast.Unparen(ta.X)
+									}
+									if isNamed(info.TypeOf(recv), modPath+"/funcGen", "MethodHandler") {
+										asksHandler = true
+									} else {
+										otherTrue = true
+									}
+								}
+								return true
+							})
+							if asksHandler && !otherTrue {
+								found = true
+							}
+						}
+						if !found {
+							missing = append(missing, "the purity of the method, which is looked up when the call is evaluated (the method handler has to be asked about the method name; unknown means not pure)")
+						}
+						return true
+					}
 					// the implementation of a binary operator bound at compile time: op := operator.Impl ... op.Calc(st, a, b)
 					if sel.Sel.Name == "Calc" && isNamed(info.TypeOf(sel.X), modPath+"/funcGen", "OperatorImpl") {
 						if oid, ok := ast.Unparen(sel.X).(*ast.Ident); ok {
@@ -791,6 +938,49 @@ func ruleR023(c *Ctx) {
 			}
 			return true
 		})
+	}
+	// the oracles the generator asks: every implementation of MethodPurity.IsMethodPure in the repository says
+	// "pure" only after it looked at the IsPure flag of the methods of that name: there is a `return false` under a
+	// condition on an IsPure field
+	for _, pkg := range c.RepoPkgs {
+		pinfo := pkg.TypesInfo
+		for _, f := range pkg.Syntax {
+			for _, d := range f.Decls {
+				fd, ok := d.(*ast.FuncDecl)
+				if !ok || fd.Body == nil || fd.Recv == nil || fd.Name.Name != "IsMethodPure" {
+					continue
+				}
+				sig, ok := pinfo.Defs[fd.Name].Type().(*types.Signature)
+				if !ok || sig.Params().Len() != 1 || sig.Results().Len() != 1 {
+					continue
+				}
+				key := declName(pkg, fd) + "#method-purity-oracle"
+				consults := false
+				g := c.CFG(fd)
+				inspectNoLit(fd.Body, func(x ast.Node) bool {
+					r, ok := x.(*ast.ReturnStmt)
+					if !ok || len(r.Results) != 1 {
+						return true
+					}
+					if tv := pinfo.Types[r.Results[0]]; tv.Value != nil && tv.Value.Kind() == constant.Bool && !constant.BoolVal(tv.Value) {
+						for _, gd := range g.Guards(r) {
+							if sel, ok := ast.Unparen(gd.Cond).(*ast.SelectorExpr); ok && sel.Sel.Name == "IsPure" && !gd.Val {
+								consults = true
+							}
+						}
+					}
+					// return m.IsPure / return a && m.IsPure
+					if containsNode(r.Results[0], func(y ast.Node) bool {
+						sel, ok := y.(*ast.SelectorExpr)
+						return ok && sel.Sel.Name == "IsPure"
+					}) {
+						consults = true
+					}
+					return true
+				})
+				c.Check(consults, key, fd.Pos(), "the method purity oracle answers false where a method of that name is registered with IsPure false", "the method purity oracle never looks at the IsPure flag of the methods: it calls impure methods pure, so closures around them are folded at Generate time")
+			}
+		}
 	}
 }
 
